@@ -13,14 +13,27 @@ import (
 // Every byte symbolic. Metadata length bytes are concretised and the metadata area is not
 // delimited (a large pair count makes the decoder run into the content), so two shapes are
 // explored: (A) pair count <= 1 with restricted length bytes and arbitrary content, (B) any pair
-// count on a short file whose bytes after the version are in {0,1,255}.
+// count on a short file whose bytes after the version are in {0,1,255}, (C) a well-formed
+// header with 254 / 255 minimal metadata pairs (the format limit) and 16 arbitrary content bytes.
 func VerifC12Manifest() {
 	C := verifParam("content", 17) // bytes after the metadata
 	P := verifParam("small", 5)    // shape B: bytes after the version
 	verifAllocLimit(int64(verifParam("alloc", 16384)))
 	var data []byte
 	var n int
-	if verifChoice("shape", 2) == 0 {
+	shape := verifChoice("shape", 3)
+	if shape == 2 {
+		// shape C: a well-formed version-5 header whose metadata sits at the format limit:
+		// 254 or 255 minimal pairs (empty key, empty value), then 16 arbitrary content bytes.
+		// readHeader re-serialises the decoded metadata (Meta.Bytes panics on a marshal error).
+		count := 254 + verifChoice("count", 2)
+		data = append(data, _MAGIC[:]...)
+		data = append(data, 5, 0, 0, 0, 0, 0, 0, 0)
+		data = append(data, byte(count))
+		data = append(data, make([]byte, 2*count)...)
+		data = append(data, verifBytes("content", 16)...)
+		n = len(data)
+	} else if shape == 0 {
 		// shape A: at most one metadata pair announced, its two length bytes restricted;
 		// everything else (magic, version, keys, values, content) arbitrary
 		lens := []int{16 + 1 + C, 5, 8, 15, 16, 17, 16 + 3 + C}
@@ -44,6 +57,7 @@ func VerifC12Manifest() {
 	verifMemFile(path, data)
 	man, err := NewManifest(path, indexmeta.Meta{})
 	if err != nil {
+		verifAssert(shape != 2, "C12.manifest: a well-formed manifest with 254/255 metadata pairs was rejected")
 		verifAssert(man == nil, "C12.manifest: NewManifest returned both a manifest and an error")
 		verifReach("open-error")
 		verifReach("end")
@@ -51,6 +65,7 @@ func VerifC12Manifest() {
 	}
 	verifAssert(man != nil && man.header != nil && man.Version() == _Version, "C12.manifest: NewManifest accepted a file without a version-5 header")
 	cs, err := man.ContentSizeBytes()
+	verifAssert(shape != 2 || (err == nil && cs == 16), "C12.manifest: content of a manifest with maximal metadata is not the 16 bytes after it")
 	verifAssert(err == nil && cs >= 0 && cs%16 == 0 && cs <= int64(n), "C12.manifest: content size is negative, unaligned or larger than the file")
 	vals, err := man.ReadAll()
 	if err != nil {
